@@ -141,6 +141,10 @@ def run(prog, chk):
     _statics(prog, chk, R)
     _phase(prog, chk, R, ev)
     _layout_order(prog, chk)
+    # destruction happens when the last program reference goes: the evaluator itself must not hold on to a returned object
+    from .C17 import return_slot_obligations
+    for f_, ln_, ok_, detail_, key_ in return_slot_obligations(prog, R):
+        chk.ob('R08.2', f_, ln_, ok_, detail_, key=key_)
 
 
 def _layout_order(prog, chk):
